@@ -25,7 +25,7 @@ theorem flatMap_filter_eq {β γ : Type} (l : List β) (p : β → Bool) (f : β
     rw [List.filter_cons]
     cases h : p x <;> simp [ih, h]
 
-theorem pathsFrom_length (fin : Nat) (layers : List (List (Edge Nat α))) (k : Nat) :
+theorem pathsFrom_length_eq_layers (fin : Nat) (layers : List (List (Edge Nat α))) (k : Nat) :
     ∀ p ∈ pathsFrom fin layers k, p.1.length = layers.length := by
   induction layers generalizing k with
   | nil =>
@@ -170,7 +170,7 @@ theorem pathsFrom_groupLayers (join : String → String → String) (fin : Nat) 
       List.map_map]
     apply List.map_congr_left
     intro p hp
-    have hpl := pathsFrom_length fin layers k p hp
+    have hpl := pathsFrom_length_eq_layers fin layers k p hp
     simp only [Function.comp_apply, List.length_cons, hlen]
     rw [regroupStr_cons join s ss p.1 (by omega)]
 
